@@ -237,6 +237,55 @@ pub fn run(ctx: &Ctx) {
             check_frame(&s, &v, l)
         });
     }
+    // the same planted zero inside a *slice* payload (byte strings reach the COBS flavour through its block-write path)
+    {
+        let lens = &lens;
+        ctx.par_range("planted-zero-in-byte-string", total, move |mut i, l| {
+            let mut n = 0;
+            for len in lens.iter() {
+                if i < *len as u64 {
+                    n = *len;
+                    break;
+                }
+                i -= *len as u64;
+            }
+            let mut w = vec![0x3Cu8; n];
+            w[i as usize] = 0;
+            check_frame(&Shape::ByteBuf, &Value::Bytes(w.clone()), l)?;
+            // and as a str followed by a float (another block write)
+            let text: String = w.iter().map(|b| if *b == 0 { '\0' } else { 'k' }).collect();
+            check_frame(
+                &Shape::Tuple(vec![Shape::String, Shape::F32]),
+                &Value::List(vec![Value::Str(text), Value::F32(0x3F80_0001)]),
+                l,
+            )
+        });
+    }
+    // a few zero bytes, then a long zero-free run (full 0xFF block after short blocks), then a tail
+    let nn = ctx.tier.pick(20_000, 200_000);
+    ctx.par_proptest(
+        "zeros-then-long-run",
+        nn,
+        || {
+            (
+                proptest::collection::vec(prop_oneof![Just(0u8), Just(0u8), 1u8..=255], 0..5),
+                prop_oneof![250usize..260, 500usize..515, 760usize..770, 254usize..255, 508usize..509],
+                proptest::collection::vec(prop_oneof![Just(0u8), 1u8..=255], 0..4),
+                any::<bool>(),
+            )
+        },
+        |(pre, run, post, as_bytes), l| {
+            let mut w = pre.clone();
+            w.extend(std::iter::repeat(0x6Du8).take(*run));
+            w.extend_from_slice(post);
+            if *as_bytes {
+                check_frame(&Shape::ByteBuf, &Value::Bytes(w), l)
+            } else {
+                let (s, v) = raw(&w);
+                check_frame(&s, &v, l)
+            }
+        },
+    );
     let n = ctx.tier.pick(60_000, 600_000);
     ctx.par_proptest(
         "random-raw",
